@@ -706,8 +706,9 @@ def c15(req, ra, ctr):
             except core.CanonError:
                 raise
         ctr['c15:plain'] += 1
-        a = engine.proj_params(ra) if ra[0] == 'ok' else ('err',)
-        b = engine.proj_params(rp) if rp[0] == 'ok' else ('err',)
+        # same parameters, or the same exception class (a plain input must not turn a ValueError into something else)
+        a = engine.proj_params(ra) if ra[0] == 'ok' else tuple(ra[:2])
+        b = engine.proj_params(rp) if rp[0] == 'ok' else tuple(rp[:2])
         if a != b:
             fails.append('downgrade-differs: %s gives %s with upgraded and %s with plain inputs' % (engine.line(req), a, b))
         if not any(issubclass(x.category, DeprecationWarning) for x in w) and ds and any(d['params'] for d in ds):
